@@ -444,7 +444,22 @@ var jsonPaths = []string{"/m1", "/m1/0", "/m1/-", "/m1/-1", "/m1/-2", "/m1/1", "
 
 var jsonValues = []interface{}{"s", float64(1), true, nil, map[string]interface{}{}, []interface{}{}, map[string]interface{}{"a": nil}, []interface{}{nil}, map[string]interface{}{"id": "k9", "type": "x"}}
 
+// aliasedOp draws a copy / move whose target lies inside its source although the two pointers are spelled
+// differently: array indices written 0, 00, +0, -0 (all index 0 for the patch library), or -1 for the last element.
+func aliasedOp(t *rapid.T) map[string]interface{} {
+	container := rapid.SampledFrom([]string{"/m1", "/arr2", "/deep/a", "/arr2/0"}).Draw(t, "aliasContainer")
+	spell := func(label string) string {
+		return rapid.SampledFrom([]string{"0", "00", "+0", "-0", "000", "-1"}).Draw(t, label)
+	}
+	tail := rapid.SampledFrom([]string{"/x", "/0", "/-", ""}).Draw(t, "aliasTail")
+	return map[string]interface{}{"op": rapid.SampledFrom([]string{"copy", "copy", "move"}).Draw(t, "aliasOp"),
+		"from": container + "/" + spell("fromIndex"), "path": container + "/" + spell("pathIndex") + tail}
+}
+
 func jsonPatchOp(t *rapid.T) map[string]interface{} {
+	if rapid.IntRange(0, 7).Draw(t, "aliased") == 0 {
+		return aliasedOp(t)
+	}
 	o := map[string]interface{}{}
 	o["op"] = rapid.SampledFrom([]interface{}{"add", "remove", "replace", "move", "copy", "test", "add", "remove", "frob", float64(7), nil, "ADD"}).Draw(t, "op")
 	switch rapid.IntRange(0, 9).Draw(t, "pathKind") {
@@ -565,7 +580,7 @@ func classOf(c *Case) []string {
 }
 
 func TestAcceptedDeltas(t *testing.T) {
-	ev.Rule(chkRules, "rapid: deltas of 1-3 patches drawn from: valid patches; add-public-keys / add-services / replace with near-miss entries (id length 0/1/49/50/51/200 and illegal characters, duplicate ids, type x purposes mismatches, 0/1/2 key-material members and foreign members, JWK missing crv/kty/x, service type 0/1/30/31/90, endpoint as string / array with the bad URI at every index / object / null / number; entry lists with a stray non-object member at a drawn position); remove patches with ill-typed id lists; json-patch lists over the six RFC 6902 operations (and unknown / ill-typed ops) with path / from / value present, absent, ill-typed, pointing at, under and next to /publicKey and /service, array indices -2..len+1 and '-', null values, test without value; under a drawn set of enabled actions; oracle (i): ValidateDelta accepts => the independent rule predicate finds no violated rule; accept rate is reported; non-trivial = an accepted delta with a near-miss or json-patch patch")
+	ev.Rule(chkRules, "rapid: deltas of 1-3 patches drawn from: valid patches; add-public-keys / add-services / replace with near-miss entries (id length 0/1/49/50/51/200 and illegal characters, duplicate ids, type x purposes mismatches, 0/1/2 key-material members and foreign members, JWK missing crv/kty/x, service type 0/1/30/31/90, endpoint as string / array with the bad URI at every index / object / null / number; entry lists with a stray non-object member at a drawn position); remove patches with ill-typed id lists; json-patch lists over the six RFC 6902 operations (and unknown / ill-typed ops) with path / from / value present, absent, ill-typed, pointing at, under and next to /publicKey and /service, array indices -2..len+1 and '-', copy / move between differently spelled pointers to one location (index 0 / 00 / +0 / -0 / -1), null values, test without value; under a drawn set of enabled actions; oracle (i): ValidateDelta accepts => the independent rule predicate finds no violated rule; accept rate is reported; non-trivial = an accepted delta with a near-miss or json-patch patch")
 	ev.Rule(chkApply, "every accepted delta of the cases above is applied with the real composer to a reachable document (result of 0-4 valid patches on {}) or to one of 5 hand-made small documents (arrays, nested objects, null members, sections present / null): oracle (ii) a document or an error, never a panic (caught in-process), a hang (20 s watchdog) or a fatal crash (in-flight journal confirmed in a fresh process); oracle (iii) after an accepted json-patch-only delta the publicKey and service members are deep-equal to before; non-trivial = accepted delta containing a json-patch with an array index, a from, or a null / absent value")
 	ev.Rapid(t, chkRules, 3000, 40000, func(t *rapid.T) {
 		c := &Case{Enabled: wire.AllPatches}
